@@ -28,10 +28,24 @@ def build(tier):
             cbs = [1 + pi % 3] if tier == "quick" else [1, 2, 3]
             for cb in cbs:
                 qs.append(rs_cycle("C11", RS2M, k, r, (1, 3)[pi % 2] if data == "full" else 5, m, pat, pi % 2, 1, pi % 3, EN, cb=cb, data=data))
+    # a larger LDPC code, received sets chosen with the reference model: peeling rebuilds >= 2 source symbols
+    # (a rebuilt symbol feeds the next equation), and sets needing a successful Gaussian elimination
+    import os
+    sd = int(os.environ.get("VERIF_SEED", "0") or 0)
+    cfg = (4, 4, 3, 1)
+    chain = pick(ldpc_it_chain_patterns(cfg), sd, 24 if tier == "quick" else 200)
+    for pi, pat in enumerate(chain):
+        for var, cb in (((0, 1), (1, 3)) if tier == "quick" else ((0, 1), (1, 3), (2, 2), (3, 1))):
+            qs.append(ldpc_cycle("C11", cfg, pat, (1, 9)[pi % 2], 0, pi % 2, var, EN, cb=cb))
+    for pi, pat in enumerate(ldpc_classes(cfg)["ml-ok"][:: (3 if tier == "quick" else 1)]):
+        qs.append(ldpc_cycle("C11", cfg, pat, 1, pi % 2, 1, 0, EN, cb=(1, 3)[pi % 2]))
+    # codec 1 (legacy GF(2^8)): a few received sets (about 100 s each)
+    for pi, pat in enumerate([[2, 3], [0, 3], [1, 2, 3]] if tier == "quick" else [[2, 3], [0, 3], [1, 2], [1, 2, 3], [0, 2, 3], [3, 2]]):
+        qs.append(rs_cycle("C11", RS28, 2, 2, 1 + pi % 2, 8, pat, pi % 2, 1, 0, EN, cb=(1, 3, 2)[pi % 3], data="full", timeout=1500))
     meta = dict(
         units=["src/lib_common/of_openfec_api.c", "it_decoding/of_it_decoding.c", "ml_decoding/of_ml_decoding.c", "src/lib_stable/reed-solomon_gf_2_m/of_reed-solomon_gf_2_m_api.c"],
         functions_encoded=["of_set_callback_functions", "decoded_source_symbol_callback call sites in of_it_decoding.c, of_ml_decoding.c, of_rs_2_m_finish_decoding"],
-        bounds="LDPC %s and RS GF(2^m) %s: every received set that leaves something to decode (plus a quarter of the others), both APIs; callback returning an application buffer / NULL / a solver-chosen mix per call; asserted: callback arguments (context, size == symbol length, esi < k), exactly one call per decoded source symbol, none for a symbol received while unknown, source table reports the callback's buffer (or a distinct library buffer after NULL), contents equal the encoded symbol for all source data. Received sets cover every decoding stage (peeling, ML simplification, Gaussian elimination) because all 2^n sets are enumerated" % (cfgs, [x[:3] for x in rs]),
-        outside_bounds="codec 1 decoding (no verdict under CBMC); decoded_repair_symbol callback (not part of the property); larger codes",
-        stubs=[RS_STUB], assumptions=STD_ASSUMPTIONS, exhaustive=False)
+        bounds="LDPC %s (plus, on (4,4,N1=3), received sets chosen with the reference model: peeling rebuilds at least two source symbols in a chain, or a Gaussian elimination must succeed) and RS GF(2^m) %s: every received set that leaves something to decode (plus a quarter of the others), both APIs; callback returning an application buffer / NULL / a solver-chosen mix per call; asserted: callback arguments (context, size == symbol length, esi < k), exactly one call per decoded source symbol, none for a symbol received while unknown, source table reports the callback's buffer (or a distinct library buffer after NULL), contents equal the encoded symbol for all source data. Received sets cover every decoding stage (peeling, ML simplification, Gaussian elimination) because all 2^n sets are enumerated" % (cfgs, [x[:3] for x in rs]),
+        outside_bounds="codec 1 beyond (2,2) and a handful of received sets; decoded_repair_symbol callback (not part of the property); larger codes",
+        stubs=[RS_STUB, RS28_TABLES], assumptions=STD_ASSUMPTIONS, exhaustive=False)
     return qs, meta
